@@ -1,4 +1,132 @@
-From Coq Require Import List ZArith Bool Arith Lia.
+(* Lemmas about the grouping model (property C52). *)
+From Coq Require Import List ZArith Bool Arith Lia Permutation.
 From PLV Require Import Disc.GroupingModel.
 Import ListNotations.
-Lemma qwc_nil : forall v, qwc [] v = true. Proof. reflexivity. Qed.
+
+(* ================================================================== relations *)
+Lemma pauli_eqb_eq a b : pauli_eqb a b = true <-> a = b.
+Proof. destruct a, b; simpl; split; intro H; try reflexivity; discriminate. Qed.
+Lemma word_eqb_eq : forall u v, word_eqb u v = true <-> u = v.
+Proof.
+  unfold word_eqb. induction u as [|a u IH]; destruct v as [|b v]; simpl; split; intro H;
+    try reflexivity; try discriminate.
+  - apply andb_true_iff in H as [H1 H2]. apply pauli_eqb_eq in H1. apply IH in H2. congruence.
+  - inversion H; subst. apply andb_true_iff; split; [now apply pauli_eqb_eq | now apply IH].
+Qed.
+
+Lemma q_commute_sym a b : q_commute a b = q_commute b a.
+Proof. destruct a, b; reflexivity. Qed.
+Lemma qwc_sym : forall u v, qwc u v = qwc v u.
+Proof. induction u as [|a u IH]; destruct v as [|b v]; simpl; try reflexivity. now rewrite IH, q_commute_sym. Qed.
+Lemma anti_parity_sym : forall u v, anti_parity u v = anti_parity v u.
+Proof. induction u as [|a u IH]; destruct v as [|b v]; simpl; try reflexivity. now rewrite IH, q_commute_sym. Qed.
+Lemma rel_sym g u v : rel g u v = rel g v u.
+Proof. destruct g; simpl; unfold commuting, anticommuting; now rewrite ?qwc_sym, ?(anti_parity_sym u v). Qed.
+
+Lemma qwc_anti_parity : forall u v, qwc u v = true -> anti_parity u v = false.
+Proof.
+  induction u as [|a u IH]; destruct v as [|b v]; simpl; intro H; try reflexivity.
+  apply andb_true_iff in H as [H1 H2]. rewrite H1, (IH _ H2). reflexivity.
+Qed.
+Lemma qwc_commuting u v : qwc u v = true -> commuting u v = true.
+Proof. intro H. unfold commuting. now rewrite qwc_anti_parity. Qed.
+
+(* the identity word is qwc / commuting with everything, and anticommutes with nothing *)
+Lemma qwc_id_r : forall u n, qwc u (repeat PI n) = true.
+Proof. induction u as [|a u IH]; destruct n; simpl; try reflexivity. rewrite IH. destruct a; reflexivity. Qed.
+Lemma anti_parity_id_r : forall u n, anti_parity u (repeat PI n) = false.
+Proof. intros. apply qwc_anti_parity, qwc_id_r. Qed.
+
+(* ================================================================== adjacency = relation *)
+Open Scope Z_scope.
+Definition pint (p : pauli) : Z := 2 * xbit p + zbit p.
+Close Scope Z_scope.
+
+Lemma to_symp_length w : length (to_symp w) = 2 * length w.
+Proof. unfold to_symp. rewrite app_length, !map_length. lia. Qed.
+Lemma div2_to_symp w : Nat.div2 (length (to_symp w)) = length w.
+Proof. rewrite to_symp_length. apply Nat.div2_double. Qed.
+Lemma firstn_to_symp w : firstn (length w) (to_symp w) = map xbit w.
+Proof.
+  unfold to_symp. rewrite firstn_app, map_length, Nat.sub_diag. simpl. rewrite app_nil_r.
+  rewrite <- (map_length xbit w) at 1. apply firstn_all.
+Qed.
+Lemma skipn_to_symp w : skipn (length w) (to_symp w) = map zbit w.
+Proof.
+  unfold to_symp. rewrite skipn_app, map_length, Nat.sub_diag. simpl.
+  rewrite <- (map_length xbit w) at 1. now rewrite skipn_all.
+Qed.
+Lemma combine_map2 {A B C} (f : A -> B) (g : A -> C) l :
+  combine (map f l) (map g l) = map (fun a => (f a, g a)) l.
+Proof. induction l; simpl; congruence. Qed.
+Lemma pint_row_to_symp w : pint_row (length w) (to_symp w) = map pint w.
+Proof. unfold pint_row. rewrite firstn_to_symp, skipn_to_symp, combine_map2, map_map. reflexivity. Qed.
+Lemma from_to_symp w : from_symp (to_symp w) = w.
+Proof.
+  unfold from_symp. rewrite div2_to_symp, firstn_to_symp, skipn_to_symp, combine_map2, map_map.
+  rewrite <- (map_id w) at 2. apply map_ext. intros []; reflexivity.
+Qed.
+
+Lemma nz_pint a b : nz ((pint a * pint b) * (pint a - pint b)) = negb (q_commute a b).
+Proof. destruct a, b; reflexivity. Qed.
+
+Definition ac_list (v u : word) : list bool :=
+  map (fun ab => negb (q_commute (fst ab) (snd ab))) (combine v u).
+Lemma qam_pint u v : map nz (qam (map pint u) (map pint v)) = ac_list v u.
+Proof.
+  unfold qam, ac_list. rewrite map_map. revert u.
+  induction v as [|b v IH]; destruct u as [|a u]; simpl; try reflexivity.
+  rewrite nz_pint. f_equal. apply IH.
+Qed.
+Lemma fold_orb_acc l : forall a, fold_left orb l a = a || fold_left orb l false.
+Proof.
+  induction l as [|x l IH]; intro a; simpl; [now rewrite orb_false_r|].
+  rewrite (IH (a || x)), (IH x). now rewrite orb_assoc.
+Qed.
+Lemma fold_xorb_acc l : forall a, fold_left xorb l a = xorb a (fold_left xorb l false).
+Proof.
+  induction l as [|x l IH]; intro a; simpl; [now rewrite xorb_false_r|].
+  rewrite (IH (xorb a x)), (IH x). now rewrite xorb_assoc.
+Qed.
+Lemma or_reduce_ac : forall v u, or_reduce (ac_list v u) = negb (qwc v u).
+Proof.
+  unfold or_reduce, ac_list. induction v as [|b v IH]; destruct u as [|a u]; simpl; try reflexivity.
+  rewrite fold_orb_acc, IH. now rewrite negb_andb.
+Qed.
+Lemma xor_reduce_ac : forall v u, xor_reduce (ac_list v u) = anti_parity v u.
+Proof.
+  unfold xor_reduce, ac_list. induction v as [|b v IH]; destruct u as [|a u]; simpl; try reflexivity.
+  now rewrite fold_xorb_acc, IH.
+Qed.
+Lemma entry_pint g u v : entry g (map pint u) (map pint v) = negb (rel g u v).
+Proof.
+  unfold entry. rewrite qam_pint. destruct g; simpl; unfold commuting, anticommuting.
+  - now rewrite or_reduce_ac, qwc_sym.
+  - now rewrite xor_reduce_ac, negb_involutive, anti_parity_sym.
+  - now rewrite xor_reduce_ac, anti_parity_sym.
+Qed.
+
+Lemma adjacency_iff_relation_l : forall g n ws, Forall (fun w => length w = n) ws ->
+  adj_matrix g (symp_matrix ws) = map (fun wi => map (fun wj => negb (rel g wi wj)) ws) ws.
+Proof.
+  intros g n ws H. unfold adj_matrix.
+  assert (HP : map (pint_row (n_qubits (symp_matrix ws))) (symp_matrix ws) = map (map pint) ws).
+  { destruct ws as [|w0 ws0]; [reflexivity|].
+    assert (Hn : n_qubits (symp_matrix (w0 :: ws0)) = n).
+    { simpl. rewrite div2_to_symp. now inversion H. }
+    rewrite Hn. unfold symp_matrix. rewrite map_map. apply map_ext_in. intros w Hw.
+    rewrite Forall_forall in H. rewrite <- (H w Hw). apply pint_row_to_symp. }
+  rewrite HP, map_map. apply map_ext. intro wi. rewrite map_map. apply map_ext. intro wj. apply entry_pint.
+Qed.
+
+Lemma adjb_adj_matrix g n ws i j : Forall (fun w => length w = n) ws -> i < length ws -> j < length ws ->
+  adjb (adj_matrix g (symp_matrix ws)) i j = negb (rel g (nth i ws []) (nth j ws [])).
+Proof.
+  intros H Hi Hj. rewrite (adjacency_iff_relation_l g n ws H). unfold adjb.
+  set (F := fun wi => map (fun wj => negb (rel g wi wj)) ws).
+  rewrite (nth_indep (map F ws) [] (F [])) by now rewrite map_length.
+  rewrite map_nth. unfold F.
+  set (G := fun wj => negb (rel g (nth i ws []) wj)).
+  rewrite (nth_indep (map G ws) false (G [])) by now rewrite map_length.
+  now rewrite map_nth.
+Qed.
